@@ -20,6 +20,7 @@ OBLIGATIONS = [NS + t for t in [
     "zakharov_subgrad", "rotated_ellipsoid_subgrad", "trid_subgrad", "quadratic_subgrad", "maxq_subgrad", "maxhilb_subgrad",
     "chained_lq_subgrad", "kinks_subgrad", "chained_cb3I_subgrad", "chained_cb3II_subgrad", "exponential_fn_subgrad",
     "geometric_subgrad",
+    "elastic_net_subgrad", "elastic_net_kernels",
     # constraints
     "ball_subgrad", "linear_subgrad", "cquad_subgrad", "minimum_subgrad", "maximum_subgrad",
     # composition
@@ -35,14 +36,16 @@ TRUSTED = [
     "Tactic.Linarith, Tactic.Positivity, Algebra.Order.Field.Basic, Analysis.SpecialFunctions.Exp / Log.Basic / Log.Deriv / "
     "Trigonometric.ArctanDeriv, Analysis.Calculus.Deriv.*)",
     "axioms: at most propext, Classical.choice, Quot.sound (audited per theorem on every run)",
-    "hand-written models NanoVerif/Model/Loss.lean (17 losses: value, vgrad, error) and NanoVerif/Model/Functions.lean (23 of the "
-    "benchmark prototypes, 9 of the 11 constraint kinds directly and the two functional kinds through the function models); tied to the "
+    "hand-written models NanoVerif/Model/Loss.lean (17 losses: value, vgrad, error) and NanoVerif/Model/Functions.lean (47 of the 48 "
+    "benchmark prototypes — all but maxquad; the 24 elastic-net prototypes through one generic definition —, 9 of the 11 constraint "
+    "kinds directly and the two functional kinds through the function models); tied to the "
     "code by the correspondence run (harness/c06.cpp on the real code vs the compiled Lean driver at Float, relative tolerance below)",
     "instances of the class Transc: std::exp/log/log1p/atan are Real.exp/Real.log/log(1+.)/Real.arctan in the proofs and libm at Float "
     "(log1p through log, core Float has none)",
     "NanoVerif/Gen/Flags.lean is a dump of the flags the implementation declares (harness op `dump flags`), regenerated on every run",
-    "parameters drawn at construction by libnano's RNG (kinks, quadratic, geometric-optimization) are reproduced in the harness with "
-    "the constructor's own calls and handed to the model",
+    "parameters drawn at construction by libnano's RNG (kinks, quadratic, geometric-optimization, the synthetic data of the "
+    "elastic-net prototypes) are reproduced in the harness with the constructor's own calls and handed to the model; the "
+    "regularisation factors of the elastic-net prototypes are read from their ids",
     "tools/props/c06.py generator + oracle (difference quotients, convexity inequality, error rules); harness/c06.cpp incl. its random "
     "local search for violating pairs (its results are re-checked by the python oracle); g++/libstdc++/Eigen",
 ]
@@ -58,8 +61,9 @@ ASSUMPTIONS = [
     "d.Pd >= 0 (hypothesis of cquad_subgrad, no symmetry needed); the eigenvalue tests of nano::convex / nano::strong_convexity "
     "(Eigen) that decide these hypotheses and the declared coefficients of quadratic / quadratic constraints are tested only",
     "non-convex benchmark functions and losses: gradient correctness by difference quotients only (plus HasDerivAt for the scalar kernels)",
-    "ML objectives (linear / gboost / surrogate, elastic-net prototypes): convexity follows from affine_comp_subgrad + sum_subgrad + "
-    "ridge_subgrad_mu given the loss kernel's inequality; their plumbing (dataset iteration, accumulation) is tested, not modelled",
+    "ML objectives (linear / gboost / surrogate): convexity follows from affine_comp_subgrad + sum_subgrad + ridge_subgrad_mu / "
+    "ridge_partial_subgrad_mu given the loss kernel's inequality (carried out in full for the elastic-net prototypes: "
+    "elastic_net_subgrad); their plumbing (dataset iteration, accumulation over threads) is tested, not modelled",
 ]
 RTOL = 1e-9
 RULE = ("corpus; all function prototypes of function_t::all() x dims (quick: 1, 2 and 6 further of 1..32; thorough: 1..32) x summands "
